@@ -80,7 +80,8 @@ def opXsdHash (k : Pos.Consts) (inp : Json) : Except String Json := do
     pure (exceptJ natJ (Xsd.valueToHash canon ci h dt gv))
   | none =>
     let lex ← jstr inp "lex"
-    pure (exceptJ natJ (do let x ← Xsd.convert canon dt lex h.prime; Xsd.enc h x))
+    -- the harness passes the lexical form as a Go string to HashValueWithHasher
+    pure (exceptJ natJ (Xsd.valueToHash canon none h dt (.str lex)))
 
 def opPreHash (k : Pos.Consts) (inp : Json) : Except String Json := do
   let h ← hasherOf k (← inp.getObjVal? "h")
